@@ -145,10 +145,113 @@ def gen_exhaustive3(rng, headers, length, shapes_n):
     return cases
 
 
+def make_multi(header, rounds):
+    """rounds: list of (body lines, sched) = successive operations on the same helper object"""
+    lines = ["case 0 " + header]
+    for k, (body, sched) in enumerate(rounds):
+        if k:
+            lines.append("round")
+        lines += body + ["sched " + " ".join(map(str, sched))]
+    return {"id": 0, "lines": lines + ["end"]}
+
+
+# helpers that are member objects re-armed with `<<` for one operation after the other (same awaiter node every time)
+REUSABLE = [h for h in HEADERS if h.split()[1] in ("conv", "callfn")]
+SEQ_TIMINGS = ["pre", "imm", "self", "other", "destroyed"]
+
+
+def seq_round(timing, kind, n):
+    """one operation with a sequential (single effective thread order) timing"""
+    w = rk_words(kind, n)
+    if timing == "pre":
+        return (["g", "pre " + w], [])
+    if timing == "imm":
+        return (["g", "imm " + w], [])
+    if timing == "self":
+        return (["g self " + w], [])
+    if timing == "other":
+        return (["g", "r " + w], [])
+    return (["g"], [])
+
+
+def gen_reuse_sequential(headers, rng, triples=4):
+    """every pair of timings for the 1st/2nd operation on one helper object (and sampled triples), outcomes rotating"""
+    cases, n = [], 0
+    for header in headers:
+        for t1 in SEQ_TIMINGS:
+            for t2 in SEQ_TIMINGS:
+                n += 1
+                cases.append(make_multi(header, [seq_round(t1, RKINDS[n % 3], 1), seq_round(t2, RKINDS[(n // 3) % 3], 2)]))
+        for _ in range(triples):
+            ts = [rng.choice(SEQ_TIMINGS) for _ in range(3)]
+            cases.append(make_multi(header, [seq_round(t, rng.choice(RKINDS), j) for j, t in enumerate(ts)]))
+    return cases
+
+
+def gen_reuse_random(rng, count):
+    """2-3 operations on one helper object, each with a random scenario (incl. concurrent invocations) and schedule"""
+    cases = []
+    for i in range(count):
+        header = REUSABLE[i % len(REUSABLE)] if rng.random() < 0.5 else rng.choice(REUSABLE)
+        rounds = []
+        for k in range(rng.choice([2, 2, 3])):
+            mode, body = timing_bodies(rng, header)
+            n = sum(1 for l in body if l.split()[0] in ("g", "r", "d"))
+            rounds.append((body, random_sched(rng, n, rng.randint(0, 7 * n))))
+        cases.append(make_multi(header, rounds))
+    return cases
+
+
+def gen_reuse_exhaustive(headers, length):
+    """first operation with each sequential timing, second operation: all schedules of registrar vs one resolver"""
+    cases = []
+    for header in headers:
+        for j, t1 in enumerate(SEQ_TIMINGS):
+            for k in RKINDS:
+                for bits in itertools.product([0, 1], repeat=length):
+                    cases.append(make_multi(header, [seq_round(t1, RKINDS[j % 3], 1), (["g", "r " + rk_words(k, 2)], list(bits))]))
+    return cases
+
+
 # one representative header per adapter code path (value type int), for the exhaustive enumerations of the quick tier
 CORE = ["cb cbawait int heap", "cb cbawait int stor", "cb cbref int heap", "cb mkprom int heap", "cb mkprom int stor",
         "cb discard int heap", "cb callfn int none", "cb conv int none m int ok", "cb conv void none m int ok",
         "cb conv int none p int ok", "cb conv int none f int throw"]
+CORE_REUSE = ["cb callfn int none", "cb callfn void none", "cb conv int none m int ok", "cb conv void none m int ok",
+              "cb conv int none p int ok hlp", "cb conv int none c int throw"]
+
+
+def split_rounds(lines):
+    """split a list of lines at the `round` separators"""
+    rounds, cur = [], []
+    for l in lines:
+        if l.strip() == "round":
+            rounds.append(cur)
+            cur = []
+        else:
+            cur.append(l)
+    return rounds + [cur]
+
+
+def operations(case, out):
+    """[(pseudo-case of one operation, its output lines)] for a (possibly multi-operation) case"""
+    ins = split_rounds(case["lines"][1:-1])
+    outs = split_rounds(out)
+    return [({"lines": [case["lines"][0]] + body + ["end"]}, outs[k] if k < len(outs) else None) for k, body in enumerate(ins)]
+
+
+def valid_round(i):
+    """exactly one registrar and it is thread 0, at most one destructor thread, `imm` without other threads"""
+    th = i["threads"]
+    if not th or th[0][0] != "g" or sum(1 for t in th if t[0] == "g") != 1 or sum(1 for t in th if t[0] == "d") > 1:
+        return False
+    if i["pre"] and i["imm"]:
+        return False
+    if i["imm"] and len(th) > 1:
+        return False
+    if i["adapter"] == "mkprom" and (i["pre"] or i["imm"]):
+        return False
+    return True
 
 
 def parse(case, out):
@@ -225,29 +328,46 @@ class CallbackSuite(Suite):
     corpus_prefix = "c18_"
     chunk = 300
     timeout = 900
-    nontrivial_rule = ("the case is a single-thread timing (already resolved / resolved later on the registering thread) or its effective "
+    nontrivial_rule = ("the case re-uses a helper object for several operations, or is a single-thread timing (already resolved / resolved later on the registering thread) or its effective "
                        "interleaving contains a context switch; distinct = adapter header + scenario + sequence of synchronising operations")
 
     def gen_cases(self, rng, tier):
         if tier == "quick":
             return (gen_sequential() + gen_exhaustive(HEADERS, 6) + gen_exhaustive(CORE, 8) + gen_exhaustive(HEADERS, 5, with_dtor=True)
-                    + gen_random(rng, 4000) + gen_contract(rng, 100))
+                    + gen_random(rng, 4000) + gen_contract(rng, 100)
+                    + gen_reuse_sequential(REUSABLE, rng) + gen_reuse_exhaustive(CORE_REUSE, 5) + gen_reuse_random(rng, 2500))
         return (gen_sequential() + gen_exhaustive(HEADERS, 8) + gen_exhaustive(HEADERS, 7, with_dtor=True)
-                + gen_exhaustive(CORE, 10) + gen_exhaustive3(rng, HEADERS, 8, 24) + gen_random(rng, 40000) + gen_contract(rng, 600))
+                + gen_exhaustive(CORE, 10) + gen_exhaustive3(rng, HEADERS, 8, 24) + gen_random(rng, 40000) + gen_contract(rng, 600)
+                + gen_reuse_sequential(REUSABLE, rng, 20) + gen_reuse_exhaustive(REUSABLE, 6) + gen_reuse_random(rng, 25000))
 
     def distinct_key(self, case, out):
-        return case["lines"][0].split(None, 2)[2] + "|" + "|".join(case["lines"][1:-2]) + "|" + "|".join(l for l in out if l.startswith("s "))
+        return (case["lines"][0].split(None, 2)[2] + "|" + "|".join(l for l in case["lines"][1:-1] if not l.startswith("sched"))
+                + "|" + "|".join(l for l in out if l.startswith("s ") or l == "round"))
 
     def nontrivial(self, case, out):
+        if any(l == "round" for l in case["lines"]):
+            return True        # re-use of a helper object: the sequence of timings is the point
         n = sum(1 for l in case["lines"][1:] if l.split()[0] in ("g", "r", "d"))
         tids = [l.split()[1] for l in out if l.startswith("s ")]
         return n == 1 or sum(1 for a, b in zip(tids, tids[1:]) if a != b) >= 1
 
     def stats(self, cases, outs):
-        adapters, timing, outcomes, alloc, completer = {}, {}, {}, {}, {}
+        adapters, timing, outcomes, alloc, completer, nops, pairs = {}, {}, {}, {}, {}, {}, {}
         switches = refused = ready_first = parked = 0
+        flat = []
         for c in cases:
-            o = outs.get(str(c["id"]), [])
+            ops = operations(c, outs.get(str(c["id"]), []))
+            nops[len(ops)] = nops.get(len(ops), 0) + 1
+            seq = []
+            for oc, oo in ops:
+                flat.append((oc, oo or []))
+                pi = parse(oc, oo or [])
+                slot0 = [w for w in pi["ops"] if w[1] == "0" and len(w) > 3 and w[3] == "slot"]
+                seq.append("already-resolved" if (pi["pre"] or pi["imm"] or any(w[2] == "cas-" for w in slot0)) else "parked")
+            if len(ops) > 1:
+                for a, b in zip(seq, seq[1:]):
+                    pairs[a + " -> " + b] = pairs.get(a + " -> " + b, 0) + 1
+        for c, o in flat:
             i = parse(c, o)
             a = i["adapter"] + ("/" + i["shape"] + ":" + i["T"] + ">" + i["to"] + ":" + i["behav"] if i["adapter"] == "conv" else "")
             adapters[a] = adapters.get(a, 0) + 1
@@ -281,16 +401,33 @@ class CallbackSuite(Suite):
                         (n for n, x in enumerate(o) if x.startswith("s ")), default=-1) else ("registrar" if last == "0" else "other")
                     break
             completer[who] = completer.get(who, 0) + 1
-        return {"contract_violating_cases(callback throws)": sum(1 for c in cases if "cbthrow" in c["lines"]),
+        return {"operations_per_case": nops, "reuse_consecutive_operations(registration outcome)": pairs,
+                "contract_violating_cases(callback throws)": sum(1 for c in cases if "cbthrow" in c["lines"]),
                 "adapters": adapters, "timing": timing, "source_outcome": outcomes, "allocator": alloc,
                 "registration_refused_by_cas": refused, "ready_at_await_ready": ready_first, "parked_then_resumed": parked,
                 "completion_run_by": completer, "context_switches_total": switches}
 
     def oracle(self, case, out):
-        """the statement of C18 evaluated on the implementation's trace"""
+        """the statement of C18 evaluated on the implementation's trace, operation by operation ("exactly once per awaited
+        operation": every operation on a re-used helper object is judged on its own callback / converter / block lines)"""
+        ops = operations(case, out)
+        parsed = [parse(c, o or []) for c, o in ops]
+        if not all(valid_round(i) for i in parsed):
+            return []          # not a scenario (only reachable by shrinking): nothing the statement talks about
+        if len(ops) > 1 and parsed[0]["adapter"] not in ("conv", "callfn", "cbref"):
+            return []
+        msgs = []
+        for k, (c, o) in enumerate(ops):
+            if o is None:
+                break          # an earlier operation ended the run (reported there)
+            ms = self.oracle_op(c, o)
+            msgs += [m if len(ops) == 1 else m.replace(": ", ": operation %d: " % (k + 1), 1) for m in ms]
+            if any(m.split(":")[0] in ("crash", "assert", "hang") for m in ms):
+                break
+        return msgs
+
+    def oracle_op(self, case, out):
         i = parse(case, out)
-        if not i["threads"] or i["threads"][0][0] != "g":
-            return []          # no registration at all (only reachable by shrinking): nothing the statement talks about
         if i["crash"]:
             return ["crash: the implementation crashed (sanitizer report / abort)"]
         if i["assert"]:
@@ -388,7 +525,9 @@ class C18(Spec):
                   "future_conv and call_fn_future_awaiter: for every adapter, outcome, timing (resolved inside the factory, by the registering thread "
                   "afterwards, by any number of racing invocations / destructors on other threads) and every schedule the completion runs at most once, "
                   "exactly once at quiescence, sees the operation's outcome, the helper block is released exactly once and only after the completion, a "
-                  "refused subscription is completed by the registrar itself, and converters deliver convRes(outcome). The model is tied to the headers by "
+                  "refused subscription is completed by the registrar itself, converters deliver convRes(outcome), and a member-object adapter re-armed for any number of "
+                  "successive operations (any combination of timings) does all this once per operation (the awaiter node's _next link is modelled and proved to be unlinked "
+                  "again after every operation). The model is tied to the headers by "
                   "replaying enumerated and random schedules on the unmodified code and diffing every line; oracles evaluate the statement on the "
                   "implementation trace (callback counts and what they saw, operator new/delete and counting-storage balance, outer future).")
     level_note = ("trusted: Lean kernel; the hand-written model lean/CoclsModel/Callback.lean; the baton shim in track_only mode (only the source future's "
